@@ -912,13 +912,16 @@ def _canon(o):
     return o
 
 
-def worker_init(repo):
+def worker_init(repo, fresh_loop=False):
     import sys
     os.environ.setdefault('PYTHONHASHSEED', '0')
     if repo not in sys.path:
         sys.path.insert(0, repo)
     import logging
     logging.disable(logging.CRITICAL)
+    if fresh_loop:                      # a forked worker must not share the parent's event loop (selector, self-pipe)
+        for k in ('loop', 'acceptor', 'acc_sess', 'cli_options'):
+            _ENV.pop(k, None)
 
 
 async def _batch(jobs):
@@ -988,7 +991,7 @@ def table_jobs(types):
     return jobs
 
 
-def run_jobs(jobs, repo, workers=None, chunk=150):
+def run_jobs(jobs, repo, workers=None, chunk=150, timeout=600):
     """Shard jobs over worker processes. Returns (results in job order, loop errors)."""
     import multiprocessing
     workers = workers or max(2, min(12, (os.cpu_count() or 4) - 2))
@@ -999,12 +1002,24 @@ def run_jobs(jobs, repo, workers=None, chunk=150):
     shards = [jobs[i::max(1, (len(jobs) + chunk - 1) // chunk)] for i in range(max(1, (len(jobs) + chunk - 1) // chunk))]
     ctx = multiprocessing.get_context('fork')
     res_by_id, errs = {}, []
-    with concurrent.futures.ProcessPoolExecutor(max_workers=workers, mp_context=ctx, initializer=worker_init,
-                                                initargs=(repo,)) as ex:
-        for out, e in ex.map(run_batch, shards):
+    ex = concurrent.futures.ProcessPoolExecutor(max_workers=workers, mp_context=ctx, initializer=worker_init,
+                                                initargs=(repo, True))
+    try:
+        # wall-clock backstop only: sessions are driven by event loop turns and cannot wait for anything, but a
+        # defect in the code under test could spin inside one callback
+        for out, e in ex.map(run_batch, shards, timeout=timeout):
             errs += e
             for r in out:
                 res_by_id[id_of(r['job'])] = r
+    except concurrent.futures.TimeoutError:
+        for pr in list(getattr(ex, '_processes', {}).values()):
+            try:
+                pr.kill()
+            except Exception:       # noqa
+                pass
+        ex.shutdown(wait=False, cancel_futures=True)
+        raise RuntimeError('probe workers did not finish within %d s (an endpoint is spinning?)' % timeout)
+    ex.shutdown()
     return [res_by_id[id_of(j)] for j in jobs], errs
 
 
